@@ -512,6 +512,8 @@ inductive Op where
   | aForEachPair (a b : Nat) (f : Fn2)           -- `array:for-each-pair($a, $b, f)`
   | mForEachF (m : Nat) (f : Fn2)                -- `map:for-each($m, f)`
   | deq (a b : Nat)                              -- `deep-equal($a, $b)`
+  | call (f k : Nat) (first : Bool)              -- `$f(K)`: K = `$k`, or its first item (`$k[1]`, `head($k)`)
+  | call2 (t k1 k2 : Nat)                        -- `$t($k1)($k2)`
   deriving Inhabited
 
 /-- the map *constructor* takes its keys through `get_atomized_operand`, which turns an
@@ -637,6 +639,22 @@ def atomsOf (s : Store) : Nat → Seq → List Key
       | some (.map es) => es.flatMap fun e => e.1 :: atomsOf s fuel e.2
       | none => []
 
+/-- A map or an array called as a function with one argument — `XPathMap.__call__` /
+`XPathArray.__call__` reached through the dynamic function call `$f(K)`: the function must be one
+map or array, a one-item argument sequence is that item, the item must be atomic (for an array: an
+xs:integer position); anything else is XPTY0004. -/
+def callFn (d : Dialect) (s : Store) (f : Seq) (arg : Seq) : Except Err Seq :=
+  match arg with
+  | [.atom key] =>
+    match f with
+    | [.ref a] =>
+      match s[a]? with
+      | some (.map es) => .ok (d.mapGet es key)
+      | some (.arr ms) => do let p ← d.arrIndex key; d.arrGet ms p
+      | none => .error .XPTY0004
+    | _ => .error .XPTY0004
+  | _ => .error .XPTY0004
+
 def allocMany (s : Store) : List Obj → Store × Seq
   | [] => (s, [])
   | o :: os =>
@@ -754,6 +772,13 @@ def evalOp (d : Dialect) (st : St) : Op → Except Err (Store × Seq)
       .ok (st.store, es.flatMap fun e => f.app [.atom e.1] e.2)
   | .deq a b =>
       .ok (st.store, boolItem (deepEqSeq d st.store (2 * st.store.length + 4) (st.var a) (st.var b)))
+  | .call f k first => do
+      let r ← callFn d st.store (st.var f) (if first then (st.var k).take 1 else st.var k)
+      .ok (st.store, r)
+  | .call2 t k1 k2 => do
+      let r ← callFn d st.store (st.var t) (st.var k1)
+      let r2 ← callFn d st.store r (st.var k2)
+      .ok (st.store, r2)
 
 /-- one step: the result (or the empty sequence after an error) is bound to the next variable;
 an operation that raises leaves the store as it was -/
